@@ -40,12 +40,14 @@ Proof.
   replace (enc_elems []) with (@nil N) by reflexivity. rewrite !blen_app. change (blen (@nil N)) with 0. lia.
 Qed.
 
-Lemma packet_size v : blen v + 10 < big -> (N.of_nat (length (enc_elem (6, v))) < big)%N.
+Lemma packet_size_t t v : t <= 252 -> blen v + 10 < big -> (N.of_nat (length (enc_elem (t, v))) < big)%N.
 Proof.
-  intros H. rewrite enc_elem_length. cbn [fst snd]. fold (blen v).
-  assert (tl_len 6 = 1%nat) by reflexivity. assert (tl_len (blen v) <= 9)%nat by (unfold tl_len; repeat match goal with |- context[if ?c then _ else _] => destruct c end; lia).
+  intros Ht H. rewrite enc_elem_length. cbn [fst snd]. fold (blen v).
+  assert (tl_len t = 1%nat) by (unfold tl_len; replace (t <=? 252) with true by lia; reflexivity). assert (tl_len (blen v) <= 9)%nat by (unfold tl_len; repeat match goal with |- context[if ?c then _ else _] => destruct c end; lia).
   unfold blen in *. lia.
 Qed.
+Lemma packet_size v : blen v + 10 < big -> (N.of_nat (length (enc_elem (6, v))) < big)%N.
+Proof. apply packet_size_t. lia. Qed.
 
 (* C03, Data *)
 Theorem data_roundtrip_thm sign nm cfg content sg si est e :
@@ -97,3 +99,141 @@ Proof.
   destruct (Hr (new_wire_reader segs)) as (d2 & c2 & E2 & O2 & C2); [rewrite <- Hs; apply view_wr_start|].
   exists d1, c1, d2, c2. auto 10.
 Qed.
+
+(* ================================================================ Interest *)
+From Packet Require Import DecInterest EncInterest.
+
+Definition signer_int_ok (sg : option signer) : Prop :=
+  match sig_active sg with
+  | Some s => match sg_time s with Some ms => (0 <= ms)%Z /\ (ms * 1000000 < two63z)%Z | None => True end /\
+              match sg_seq s with Some x => x < two64 | None => True end
+  | None => True
+  end.
+Definition iconfig_ok (cfg : iconfig) : Prop :=
+  match ic_fh cfg with Some ns => Forall name_ok ns | None => True end /\
+  match ic_life cfg with Some d => dur_wf d | None => True end.
+Definition int_fits nm1 cfg app si est : Prop := int_len (int_rec nm1 cfg app si) est + 10 < big.
+
+Lemma int_siginfo_wf sg need si est : int_siginfo sg need = Ok (si, est) -> signer_ok sg -> signer_int_ok sg -> opt_si_wf si.
+Proof.
+  unfold int_siginfo, signer_ok, signer_int_ok. destruct (sig_active sg) as [s|]; [|intros H _ _; inversion H; exact I].
+  destruct need; cbn [negb]; [|discriminate].
+  destruct (sg_nb s), (sg_na s); try discriminate.
+  intros H Hk [Ht Hq].
+  assert (Htime : match option_map (fun ms : Z => wrap_int (ms * 1000000)) (sg_time s) with Some d => dur_wf d | None => True end).
+  { destruct (sg_time s) as [ms|]; cbn; [|exact I]. destruct Ht as [H0 H1]. unfold two63z in H1.
+    assert (Hw : wrap_int (ms * 1000000) = (ms * 1000000)%Z) by (unfold wrap_int, two63z, two64z; rewrite Z.mod_small by lia; lia).
+    rewrite Hw. unfold dur_wf, two63z. repeat split; try lia. }
+  destruct (sg_type s =? 0)%Z.
+  - destruct (253 <=? sg_est s); [discriminate|]. inversion H; subst. unfold opt_si_wf, si_wf. cbn [si_type si_kl si_time si_seq si_unmodelled]. repeat split; auto using uint64_of_bound.
+  - destruct (sg_key s) as [k|]; [|discriminate]. destruct (253 <=? sg_est s); [discriminate|]. inversion H; subst.
+    unfold opt_si_wf, si_wf. cbn [si_type si_kl si_time si_seq si_unmodelled]. repeat split; auto using uint64_of_bound.
+Qed.
+
+Lemma IV_len_unsigned nmF cfg app si nm1 : name_len nmF = name_len nm1 -> blen (name_inner nmF) = blen (name_inner nm1) ->
+  blen (IV nmF cfg app si None) = int_len (int_rec nm1 cfg app si) 0.
+Proof.
+  intros H1 H2. rewrite int_len_ok, IV_unfold. change (0 <? 0) with false. cbv iota. cbn [oel].
+  replace (enc_elems []) with (@nil N) by reflexivity. rewrite !blen_app. change (blen (@nil N)) with 0.
+  unfold name_tlv, tlv. rewrite !blen_app, H1, H2. lia.
+Qed.
+
+Section InterestRoundtrip.
+Variable sha256 : bytes -> bytes.
+Hypothesis sha256_len : forall x, length (sha256 x) = 32%nat.
+Variable sign : list bytes -> option bytes.
+
+Lemma digest_comp_ok (h : bytes) : length h = 32%nat -> comp_ok (mkc 2 h).
+Proof. intros H. split; cbn [ctyp cval]; [unfold two64; lia|rewrite H; lia]. Qed.
+
+Theorem interest_roundtrip_thm nm cfg app sg si est e :
+  let need := match app with Some _ => true | None => false end in
+  let pre := strip_digest nm in
+  let nm1 := if need then pre ++ [mkc 2 zeros32] else pre in
+  int_siginfo sg need = Ok (si, est) -> name_ok pre -> (app = None -> existsb is_digest_comp pre = false) ->
+  iconfig_ok cfg -> signer_ok sg -> signer_int_ok sg -> int_fits nm1 cfg app si est ->
+  make_interest sha256 sign nm cfg app sg = Ok e ->
+  exists svo, (est = 0 -> svo = None) /\ (0 < est -> sign (e_cov e) = svo /\ exists s, svo = Some s /\ blen s <= est) /\
+    e_final e = (if need then pre ++ [mkc 2 (sha256 (enc_elems (int_tail_elems (option_map (@concat N) app) si svo)))] else pre) /\
+    concat (e_wire e) = enc_elem (5, IV (e_final e) cfg app si svo) /\
+    forall r, View r (concat (e_wire e)) 0 ->
+      exists i cov, read_interest sha256 r = ROk i cov /\ obs_int i = expected_int (e_final e) cfg app sg svo /\
+                    (0 < est -> concat cov = concat (e_cov e)).
+Proof.
+  intros need pre nm1 Hsi Hpre Hnod [Hfh Hlife] Hsg Hsgi Hfit Hmk.
+  pose proof (int_siginfo_wf _ _ _ _ Hsi Hsg Hsgi) as Hsiwf. unfold int_fits in Hfit.
+  assert (Hhead : head_wf (ic_fh cfg) (option_map (fun x => x mod 4294967296) (ic_nonce cfg)) (ic_life cfg)).
+  { split; [exact Hfh|]. split; [|exact Hlife]. destruct (ic_nonce cfg); cbn; [apply N.mod_lt; lia|exact I]. }
+  destruct app as [a|]; subst nm1 need; cbn iota in *.
+  - (* with parameters *)
+    assert (Hexp : forall final svo, expected_int final cfg (Some a) sg svo =
+              mkIobs final (ic_cbp cfg) (ic_mbf cfg) (ic_fh cfg) (option_map (fun x => x mod 4294967296) (ic_nonce cfg)) (ic_life cfg)
+                     (option_map (fun x => x mod 256) (ic_hop cfg)) (Some (concat a)) si svo).
+    { intros. unfold expected_int, int_si_of. rewrite Hsi. reflexivity. }
+    destruct (make_interest_params sha256 sha256_len sign nm cfg a sg si est Hsi) as (COV & Hcov & Hcov0 & Hnone & Hlong & Hok);
+      [unfold two64; fold pre; lia|].
+    pose proof (int_siginfo_est _ _ _ Hsi) as He252.
+    assert (Hcase : exists svo, (est = 0 -> svo = None) /\ (0 < est -> exists sv, svo = Some sv /\ sign COV = Some sv /\ blen sv <= est)).
+    { destruct (N.eq_dec est 0) as [->|Hne]; [exists None; split; [reflexivity|lia]|].
+      assert (Hpos : 0 < est) by lia.
+      destruct (sign COV) as [sv|] eqn:Es; [|rewrite (Hnone Hpos eq_refl) in Hmk; discriminate].
+      destruct (N.le_gt_cases (blen sv) est) as [Hle|Hgt]; [|rewrite (Hlong sv Hpos eq_refl) in Hmk by lia; discriminate].
+      exists (Some sv). split; [lia|]. intros _. eauto. }
+    destruct Hcase as (svo & Hs0 & Hs1).
+    destruct (Hok svo Hs0 Hs1) as (W & E & HW). rewrite E in Hmk. inversion Hmk; subst e. cbn [e_wire e_cov e_final].
+    set (h := sha256 (AH (Some a) ++ CB (Some a) ++ ST44 si ++ enc_elems (oel 46 svo))) in *.
+    set (nmF := strip_digest nm ++ [mkc 2 h]) in *. fold pre in nmF.
+    assert (Hh : enc_elems (int_tail_elems (option_map (@concat N) (Some a)) si svo) = AH (Some a) ++ CB (Some a) ++ ST44 si ++ enc_elems (oel 46 svo))
+      by apply tail_unfold.
+    exists svo. split; [exact Hs0|]. split.
+    { intros Hpos. destruct (Hs1 Hpos) as (sv & -> & Hsv & Hle). split; [exact Hsv|eauto]. }
+    split; [rewrite Hh; reflexivity|]. split; [exact HW|].
+    intros r V. rewrite HW in V.
+    assert (HnF : name_ok nmF) by (unfold nmF, name_ok; apply Forall_app; split; [exact Hpre|constructor; [apply digest_comp_ok, sha256_len|constructor]]).
+    assert (Hsize : (N.of_nat (length (enc_elem (5, IV nmF cfg (Some a) si svo))) < big)%N).
+    { apply packet_size_t; [lia|].
+      (* the value is not longer than Init's total *)
+      assert (Hni : name_len nmF = name_len (pre ++ [mkc 2 zeros32]) /\ blen (name_inner nmF) = blen (name_inner (pre ++ [mkc 2 zeros32]))).
+      { assert (Hhl : length h = 32%nat) by apply sha256_len.
+        split; [apply name_len_digest; rewrite Hhl; reflexivity|].
+        unfold nmF. rewrite !name_inner_snoc, !blen_app, (comp_enc_digest h), (comp_enc_digest zeros32) by (exact Hhl || reflexivity).
+        f_equal. unfold blen. rewrite !app_length. f_equal. f_equal. exact Hhl. }
+      destruct Hni as [Hn1 Hn2].
+      rewrite IV_unfold. rewrite int_len_ok in Hfit. unfold name_tlv, tlv in *. rewrite !blen_app in *. rewrite Hn1, Hn2.
+      destruct svo as [sv|]; cbn [oel].
+      - assert (Hpos : 0 < est) by (destruct (N.eq_dec est 0) as [E0|E0]; [specialize (Hs0 E0); discriminate|lia]).
+        destruct (Hs1 Hpos) as (sv' & Esv & _ & Hle).
+        inversion Esv; subst sv'. rewrite enc_elems_one. unfold enc_elem. cbn [fst snd]. rewrite !blen_app, <- !tlsz_enc. fold (blen sv).
+        replace (0 <? est) with true in Hfit by lia. unfold tlv_len in Hfit. rewrite <- !tlsz_enc in Hfit. pose proof (tlsz_mono _ _ Hle). lia.
+      - replace (enc_elems []) with (@nil N) by reflexivity. change (blen (@nil N)) with 0. rewrite <- !tlsz_enc in *.
+        destruct (0 <? est); lia. }
+    destruct (read_interest_ok sha256 r nmF (ic_cbp cfg) (ic_mbf cfg) (ic_fh cfg) (option_map (fun x => x mod 4294967296) (ic_nonce cfg))
+                (ic_life cfg) (option_map (fun x => x mod 256) (ic_hop cfg)) (Some (concat a)) si svo V HnF Hhead)
+      as (i & cov & Er & Ho & Hc).
+    { split; [discriminate|exact Hsiwf]. }
+    { exists pre. unfold nmF. f_equal. f_equal. f_equal. unfold h. f_equal. symmetry. exact Hh. }
+    { exact Hsize. }
+    exists i, cov. split; [exact Er|]. split; [rewrite Hexp; exact Ho|].
+    intros Hpos. rewrite Hc. destruct (Hs1 Hpos) as (sv & -> & _ & _).
+    rewrite (Hcov Hpos). unfold nmF. rewrite doff_last. rewrite name_inner_snoc.
+    rewrite firstn_app_le by lia. rewrite firstn_all. f_equal.
+    rewrite enc_elems_app. change (Some (concat a)) with (option_map (@concat N) (Some a)). rewrite <- app_elems, ST44_elem, <- !app_assoc. reflexivity.
+  - (* no parameters *)
+    destruct (int_siginfo_unsigned _ _ _ Hsi) as [-> ->].
+    assert (Hexp : forall final, expected_int final cfg None sg None =
+              mkIobs final (ic_cbp cfg) (ic_mbf cfg) (ic_fh cfg) (option_map (fun x => x mod 4294967296) (ic_nonce cfg)) (ic_life cfg)
+                     (option_map (fun x => x mod 256) (ic_hop cfg)) None None None).
+    { intros. unfold expected_int, int_si_of. unfold int_siginfo in *. destruct (sig_active sg); [discriminate|]. reflexivity. }
+    destruct (make_interest_noparams sha256 sha256_len sign nm cfg sg None 0 Hsi) as (W & E & HW); [unfold two64; fold pre; lia|].
+    rewrite E in Hmk. inversion Hmk; subst e. cbn [e_wire e_cov e_final]. fold pre.
+    exists None. split; [reflexivity|]. split; [lia|]. split; [reflexivity|]. split; [exact HW|].
+    intros r V. rewrite HW in V. fold pre in V.
+    destruct (read_interest_ok sha256 r pre (ic_cbp cfg) (ic_mbf cfg) (ic_fh cfg) (option_map (fun x => x mod 4294967296) (ic_nonce cfg))
+                (ic_life cfg) (option_map (fun x => x mod 256) (ic_hop cfg)) None None None V Hpre Hhead)
+      as (i & cov & Er & Ho & Hc).
+    { split; [auto|exact I]. }
+    { exact (Hnod eq_refl). }
+    { apply (packet_size_t 5 (IV pre cfg None None None)); [lia|]. rewrite (IV_len_unsigned pre cfg None None pre) by reflexivity. lia. }
+    exists i, cov. split; [exact Er|]. split; [rewrite Hexp; exact Ho|lia].
+Qed.
+End InterestRoundtrip.
